@@ -53,11 +53,17 @@ def session_kinds():
                         if not peer_asn4 and ibgp and las > 65535:
                             continue  # an iBGP peer of a 4-byte AS necessarily speaks ASN4
                         out.append({'ibgp': ibgp, 'las': las, 'peer_asn4': peer_asn4, 'addpath': ap, 'extmsg': ext})
+    # RFC 8950: IPv4 families with an IPv6 next hop, on sessions which negotiated the extended next hop capability
+    for ibgp, las, peer_asn4, ap in ((False, 65000, True, 0), (True, 65000, True, 3), (False, 4200000001, True, 3), (False, 65000, False, 0)):
+        out.append({'ibgp': ibgp, 'las': las, 'peer_asn4': peer_asn4, 'addpath': ap, 'extmsg': False, 'enh': True})
     return out
 
 
 def sname(k):
-    return f'{"ibgp" if k["ibgp"] else "ebgp"}/{"las4" if k["las"] > 65535 else "las2"}/{"p4" if k["peer_asn4"] else "p2"}/{"ap" if k["addpath"] else "noap"}/{"ext" if k["extmsg"] else "std"}'
+    return f'{"ibgp" if k["ibgp"] else "ebgp"}/{"las4" if k["las"] > 65535 else "las2"}/{"p4" if k["peer_asn4"] else "p2"}/{"ap" if k["addpath"] else "noap"}/{"ext" if k["extmsg"] else "std"}' + ('/enh' if k.get('enh') else '')
+
+
+ENH = [(1, 1, 2), (1, 4, 2), (1, 128, 2)]  # (afi, safi, next hop afi)
 
 
 def plan(tier, seed):
@@ -75,6 +81,7 @@ def build(k, routes_text):
         addpath=k['addpath'],
         addpath_families=FAMS if k['addpath'] else None,
         extmsg=k['extmsg'],
+        nexthop=ENH if k.get('enh') else (),
         body='    static {\n' + ''.join(f'        {t};\n' for t in routes_text) + '    }\n',
         extra='    adj-rib-out true;',
     )
@@ -87,6 +94,8 @@ def build(k, routes_text):
         caps.append(rw.cap_addpath([(a, s, 3) for a, s in FAMS]))
     if k['extmsg']:
         caps.append((rw.CAP_EXTMSG, b''))
+    if k.get('enh'):
+        caps.append(rw.cap_nexthop(ENH))
     caps.append((rw.CAP_REFRESH, b''))
     peer_body = rw.enc_open_body(pas if pas < 65536 else rw.AS_TRANS, 90, '10.0.0.2', caps)
     neg, sent, ours_raw = exa.negotiate(nb, peer_body)
@@ -231,7 +240,10 @@ def run_shard(desc):
         for _ in range(desc['routes']):
             afi, safi = r.choice(FAMS)
             # (IPv6 /32 routes were left out until the NetMask fix; now included)
-            text, intent = gt.gen_route(r, afi, KIND[safi], rich=0.55, with_pathid=r.random() < 0.4, allow_self=(afi == 1))
+            v6nh = k.get('enh') and afi == 1 and r.random() < 0.5
+            text, intent = gt.gen_route(r, afi, KIND[safi], rich=0.55, with_pathid=r.random() < 0.4, allow_self=(afi == 1) and not v6nh, nexthop_pool=['2001:db8::ff', '2001:db8:1::1'] if v6nh else None)
+            if v6nh:
+                res.count('ipv4-route-with-ipv6-nexthop')
             routes.append((text, intent))
         # siblings: same attributes, another prefix and another next hop, queued in the same batch - the next hop is
         # not part of the attribute text and a grouping which forgets it sends one route with the other's next hop
